@@ -231,5 +231,5 @@ package core
 //@   requires f != nil && f.Peer != nil && sepbody(f)
 //@   ensures[done] f.Done && f.Peer.Done
 //@   ensures[copy@C02,C11] len(f.RspBody) <= rc.MsgMaxLength ==> bytes_eq(f.Peer.RspBody, f.RspBody) && f.Peer.Error == old(f.Peer.Error)
-//@   ensures[toolarge@C17] len(f.RspBody) > rc.MsgMaxLength ==> str(f.Peer.RspBody) == "-ERR rsp msg length too large\r\n" && f.Peer.Error == codec.ErrMsgRspTooLarge
+//@   ensures[toolarge@C17] len(f.RspBody) > rc.MsgMaxLength ==> bytes_eq(f.Peer.RspBody, "-ERR rsp msg length too large\r\n") && f.Peer.Error == codec.ErrMsgRspTooLarge
 //@   ensures[src] unchanged(f.RspBody) && result == nil
